@@ -124,10 +124,16 @@ def py_eval(case):
     return res, stored
 
 
-def gen_case(rng, anomaly=0.02):
-    g = gen_expr.ExprGen(rng, anomaly=anomaly)
+def gen_case(rng, anomaly=0.02, wide=0.0):
+    g = gen_expr.ExprGen(rng, anomaly=anomaly, wide=wide)
     docs = g.docs(rng.choice([2, 2, 3]))
-    e, t = g.top()
+    if wide:
+        # the wide-number stream: mostly arithmetic and comparisons, not too deep, so that the
+        # int64 values reach the operators instead of being lost in a branch that is not taken
+        e, t = g.top(kind=rng.choice(['num', 'num', 'num', 'num', 'bool', 'bool', 'arr', None, None]),
+                     depths=(1, 2, 2, 3, 3, 4))
+    else:
+        e, t = g.top()
     return {'expr': e, 'type': t, 'docs': docs, 'oids': wire.Oids(), 'ops': g.ops}
 
 
@@ -409,6 +415,55 @@ def fixed_cases():
     return out
 
 
+# Boundary-operand grid: every numeric operator of the vocabulary on every (left, right) pair of
+# two lists of boundary operands -- zero, signs, halves, the int32 / int64 limits, and the int64
+# values from 2**53 on that a double does not hold exactly (ids, nanosecond timestamps) -- as stored
+# fields `a`, `b` (null and missing included).  Deterministic, the same on every run and seed: a
+# numeric operator that goes wrong on one operand class is met whatever the random stream does.
+_MISSING = object()
+GRID_LEFT = [0, 1, -1, 2, 3, -7, 0.5, -1.5, 2.5, 0.0,
+             2 ** 31 - 1, 2 ** 31, -2 ** 31,
+             2 ** 53 - 1, 2 ** 53, 2 ** 53 + 1, -(2 ** 53 + 1), 2 ** 53 + 2, 2 ** 60,
+             2 ** 60 + 1, 1541815603606036487, 2 ** 63 - 1, -2 ** 63,
+             float(2 ** 53), float(2 ** 62), None, _MISSING]
+GRID_RIGHT = [0, 1, 2, 3, -2, 16, 0.5, 1.5, -3.0, 2 ** 53 + 1, 2 ** 62 + 1, None]
+GRID_BINARY = ['$subtract', '$divide', '$mod', '$pow', '$log', '$add', '$multiply',
+               '$eq', '$ne', '$gt', '$gte', '$lt', '$lte', '$sum', '$avg', '$max', '$min']
+GRID_UNARY = ['$abs', '$ceil', '$floor', '$trunc', '$sqrt', '$exp', '$ln', '$log10', '$toString',
+              '$isNumber']
+GRID_DOCS = 12          # operand pairs per case
+
+
+def _grid_doc(i, a, b=_MISSING):
+    d = {'_id': i}
+    if a is not _MISSING:
+        d['a'] = a
+    if b is not _MISSING:
+        d['b'] = b
+    return d
+
+
+def grid_cases():
+    out = []
+
+    def add(expr, docs):
+        for k in range(0, len(docs), GRID_DOCS):
+            out.append({'expr': copy.deepcopy(expr), 'type': 'any', 'oids': wire.Oids(), 'ops': {},
+                        'docs': [dict(d, _id=i) for i, d in enumerate(docs[k:k + GRID_DOCS])],
+                        'grid': True})
+    pairs = [_grid_doc(0, a, b) for a in GRID_LEFT for b in GRID_RIGHT]
+    for op in GRID_BINARY:
+        add({op: ['$a', '$b']}, pairs)
+    singles = [_grid_doc(0, a) for a in GRID_LEFT]
+    for op in GRID_UNARY:
+        add({op: '$a'}, singles)
+    # a date moved by a boundary number of milliseconds (the years 1..9999 are all Python holds)
+    dated = [dict(_grid_doc(0, a), t=gen_expr.DATES[1]) for a in GRID_LEFT + [10 ** 14, -10 ** 14]]
+    add({'$add': ['$t', '$a']}, dated)
+    add({'$subtract': ['$t', '$a']}, dated)
+    return out
+
+
 def run(ctx, proof, driver_ok):
     if not driver_ok:
         return {'explanation': 'model driver unavailable; no correspondence run'}
@@ -417,6 +472,8 @@ def run(ctx, proof, driver_ok):
     judge = Judge(ctx)
     corpus = corpus_cases() + fixed_cases()
     run_cases(ctx, corpus, judge)
+    grid = grid_cases()
+    grid_evaluations = 3 * sum(len(c['py']) for c in run_cases(ctx, grid, judge))
     ops = collections.Counter()
     depth = collections.Counter()
     types = collections.Counter()
@@ -430,7 +487,10 @@ def run(ctx, proof, driver_ok):
     batch = 2000
     while done < n and not ctx.too_many():
         # one case in ten comes from the malformed stream (higher anomaly rate)
-        cases = [gen_case(rng, anomaly=(0.15 if k % 10 == 9 else 0.012))
+        # and one in five from the wide-number stream (half of the numbers are int64 values of 31
+        # to 63 bits)
+        cases = [gen_case(rng, anomaly=(0.15 if k % 10 == 9 else 0.012),
+                          wide=(0.5 if k % 5 == 3 else 0.0))
                  for k in range(min(batch, n - done))]
         done += len(cases)
         for c in run_cases(ctx, cases, judge):
@@ -463,6 +523,9 @@ def run(ctx, proof, driver_ok):
         'samples': samples,
         'cases': total,
         'corpus_cases': len(corpus),
+        'boundary_grid': {'cases': len(grid), 'evaluations': grid_evaluations,
+                          'operators': GRID_BINARY + GRID_UNARY,
+                          'operand_pairs_per_binary_operator': len(GRID_LEFT) * len(GRID_RIGHT)},
         'fraction_constant_across_documents': round(constant / float(max(total, 1)), 4),
         'fraction_cases_with_an_error': round(raising / float(max(total, 1)), 4),
         'zones': dict(judge.zone),
